@@ -114,19 +114,37 @@ def run(ctx, rep):
     outer = [x for x in dsites if re.search(r"WALRecord<T> as codeq::Decode>::decode$", (x[2]["callee"].get("rpath") or "")
                                             ) or "WALRecord<T>" in (x[2]["callee"].get("self_ty") or "")]
     rep.floor("R03.3", "WALRecord::decode call sites (record iterator, positional read)", len(outer), 2)
+    # bodies that belong to a record decoder: the Decode impls, plus private helpers all of whose call sites lie in such bodies
+    DEC_IMPL = r"(WALRecord<T>|RaftLogState<T>) as codeq::Decode>::decode$"
+    inside = {b["key"] for b in ctx.facts.doc["bodies"] if re.search(DEC_IMPL, b["key"])}
+    callers = {}
+    for b in ctx.facts.doc["bodies"]:
+        for blk in b["blocks"]:
+            t_ = blk["term"]
+            if not blk["cleanup"] and t_["k"] == "call":
+                k_ = t_["callee"].get("rkey") or t_["callee"].get("key")
+                if k_:
+                    callers.setdefault(k_, set()).add(b["key"])
+    changed = True
+    while changed:
+        changed = False
+        for k_, cs in callers.items():
+            if k_ not in inside and cs and cs <= inside and not ctx.facts.bodies.get(k_, {}).get("pub"):
+                inside.add(k_)
+                changed = True
     for b, bi, t in dsites:
         where = "%s:%d" % (rel(t["file"]), t["line"])
         if (b, bi, t) in outer:
             rep.ok("R03.3", "WALRecord::decode called from %s" % short_key(b["key"]), "", where=where, nontrivial=False)
             continue
-        if re.search(r"(WALRecord<T>|RaftLogState<T>) as codeq::Decode>::decode$", b["key"]):
+        if b["key"] in inside:
             continue
         rep.violation("R03.3", "%s|inner-decode-outside-record-decode" % short_key(b["key"]), cpath(t),
                       "record fields are decoded from bytes outside WALRecord::decode, i.e. without the record checksum", where=where)
     # RaftLogState::decode is only reachable from WALRecord::decode
     for b, bi, t in dsites:
         rp = t["callee"].get("rpath") or ""
-        if re.search(r"RaftLogState<T> as codeq::Decode>::decode$", rp) and not re.search(r"WALRecord<T> as codeq::Decode>::decode$", b["key"]):
+        if re.search(r"RaftLogState<T> as codeq::Decode>::decode$", rp) and b["key"] not in inside:
             rep.violation("R03.3", "%s|state-decode-outside-record-decode" % short_key(b["key"]), cpath(t),
                           "a RaftLogState is decoded outside a checksummed record", where="%s:%d" % (rel(t["file"]), t["line"]))
 
